@@ -472,6 +472,17 @@ class Effects(object):
             for (key, rs, node, f) in self.summ[q].callsites:
                 for cs in self.callees(key):
                     todo.append(cs.fi.qn)
+                    # an object of a package class is created: its methods
+                    # (operators, dunders) can be invoked implicitly
+                    if cs.fi.name == '__init__' and cs.fi.owner is not None:
+                        for c in cs.fi.owner.mro:
+                            if not isinstance(c, ClassInfo):
+                                continue
+                            for mn, mnode in c.attrs.items():
+                                if isinstance(mnode, ast.FunctionDef):
+                                    m = self.prog.method(c, mn, own=True)
+                                    if m.qn in self.summ:
+                                        todo.append(m.qn)
         return seen
 
 
